@@ -16,7 +16,7 @@ enum {
    MSGCLS_EDGE,         // flattened size near 2040 / 2048 bytes (gateway scratch buffer)
    MSGCLS_LARGE,        // several KB .. 100KB
    MSGCLS_NESTED,       // nesting depth 3-6
-   MSGCLS_SHAPED,       // one of 6 fixed shapes with varying values (template-cache hits, zlib back-references)
+   MSGCLS_SHAPED,       // one of 10 fixed shapes with varying values (template-cache hits, zlib back-references)
    MSGCLS_COMMON,       // only the type repertoire common to the C mini/micro codecs
    NUM_MSGCLS
 };
@@ -86,7 +86,7 @@ inline muscle::MessageRef GenMessage(uint64_t gseed, int cls)
       case MSGCLS_NESTED: return Gen(r, 1 + (int) r.below(3), 0, 3 + (int) r.below(4), false, 30);
       case MSGCLS_SHAPED:
       {
-         const uint32 shape = r.below(6);
+         const uint32 shape = r.below(10);
          Rng sr(shape*7919+1, "shape");   // the shape depends on the shape number only
          MessageRef m = GetMessageFromPool(shape);
          const int nf = 1 + (int) sr.below(5);
@@ -98,7 +98,20 @@ inline muscle::MessageRef GenMessage(uint64_t gseed, int cls)
                case 0: (void) m()->AddInt32(fn, (int32) r.below(4)); break;
                case 1: (void) m()->AddString(fn, r.oneIn(2) ? "the same string every time, more or less" : "another fairly common string"); break;
                case 2: (void) m()->AddInt64(fn, (int64) r.below(3)); (void) m()->AddInt64(fn, 5); break;
-               case 3: {MessageRef sub = GetMessageFromPool(77); (void) sub()->AddInt32("q", (int32) r.below(2)); (void) sub()->AddString("z", "sub"); (void) m()->AddMessage(fn, sub);} break;
+               case 3:
+               {
+                  // a Message-type field with 1-3 sub-Messages whose layouts DIFFER from one another (each sub-Message has its own sub-template), the last one possibly nested once more
+                  const int nsubs = 1 + (int) sr.below(3); const bool deep = sr.oneIn(3);
+                  for (int k=0; k<nsubs; k++)
+                  {
+                     MessageRef sub = GetMessageFromPool(77 + (uint32) k);
+                     if (k == 0) {(void) sub()->AddInt32("q", (int32) r.below(2)); (void) sub()->AddString("z", "sub");}
+                     else if (k == 1) {(void) sub()->AddString("name", r.oneIn(2) ? "n1" : "another name"); (void) sub()->AddFloat("v", (float) r.below(4)); (void) sub()->AddInt8("b", (int8) r.below(3));}
+                     else {(void) sub()->AddInt64("w", (int64) r.below(5)); if (deep) {MessageRef ss = GetMessageFromPool(5); (void) ss()->AddInt16("h", (int16) r.below(9)); (void) ss()->AddString("t", "deep"); (void) sub()->AddMessage("ss", ss);}}
+                     (void) m()->AddMessage(fn, sub);
+                  }
+               }
+               break;
                case 4: (void) m()->AddBool(fn, r.oneIn(2)); break;
                default: (void) m()->AddDouble(fn, (double) r.below(3)); break;
             }
